@@ -66,6 +66,8 @@ def main(argv):
         except Exception as e:  # any escape from the harness or the code under test
             tb = traceback.format_exc()
             in_repo = any(pkg_path in ln for ln in tb.splitlines()[-12:])
+            if isinstance(e, RecursionError):  # the frame that overflows is arbitrary; what matters is who recursed
+                in_repo = tb.count(pkg_path) > tb.count(os.path.join(env.VERIF, ""))
             obs.violate(
                 "crash:" + type(e).__name__,
                 f"{type(e).__name__}: {e}",
